@@ -225,9 +225,12 @@ bool comp_init(zckCtx *zck) {
                 zck->chunk_auto_max = zck->chunk_max_size;
             zck_log(ZCK_LOG_DEBUG, "Setting automatic maximum chunk size to %llu",
                     (long long unsigned) zck->chunk_auto_max);
-            /* A maximum below the automatic minimum would never end a chunk */
+            /* A maximum below the automatic minimum (or below the configured
+             * minimum) would never end a chunk */
             if(zck->chunk_auto_min > zck->chunk_auto_max)
                 zck->chunk_auto_min = zck->chunk_auto_max;
+            if(zck->chunk_min_size > zck->chunk_auto_max)
+                zck->chunk_min_size = zck->chunk_auto_max;
         }
     }
 
